@@ -748,7 +748,7 @@ func (rn *runner) cliCase(c ccase, tag string) {
 		res.Count("oracle-fails:" + o)
 		res.Violate(common.Violation{Kind: "impl-violation", Oracle: o, Input: in,
 			Impl: fmt.Sprintf("txtar-c rc=%d txtar-x rc=%d archive=%q", r.cRC, r.xRC, r.archive),
-			Key: o + ":" + mustJSON(c.Files), Detail: "txtar-c then txtar-x does not reproduce the archived files"})
+			Key:  o + ":" + mustJSON(c.Files), Detail: "txtar-c then txtar-x does not reproduce the archived files"})
 	}
 	// model: the archive bytes
 	parts := []string{"savedir", b01(c.Quote), b01(c.All), fmt.Sprint(len(c.Files))}
@@ -1029,7 +1029,14 @@ func main() {
 	// names colliding with what exists, with data empty / equal to / shorter / longer than
 	// the old contents, alone and after a fresh entry, under every way of naming the directory
 	for sc := 0; sc < nScenarios; sc++ {
-		for name, old := range existing(sc) {
+		ex := existing(sc)
+		var exNames []string
+		for name := range ex {
+			exNames = append(exNames, name)
+		}
+		sort.Strings(exNames)
+		for _, name := range exNames {
+			old := ex[name]
 			for _, d := range dataVariants(old) {
 				for form := 0; form < nDirForms; form++ {
 					rn.writeCase(wcase{Scenario: sc, DirForm: form, Entries: []entry{{Name: name, Data: d}}}, "colliding")
